@@ -27,22 +27,23 @@ MCPol ==
             apps |-> [appT |-> [trusted |-> TRUE, key |-> "appkey"], appU |-> [trusted |-> FALSE, key |-> "appkey2"]]]
  @@ "T0" :> ([rules |-> [main |-> <<[pr |-> {"p1"}, thr |-> 1]>>, feat |-> <<>>]] @@ NoGlobal)
 
-PolIds == CASE Family = "approvals" -> {"R"} [] Family = "nopolicy" -> {"A"} [] Family = "chain" -> {"A", "B"} [] Family = "global" -> {"A", "G", "H", "T"} [] Family = "recovery" -> {"A", "B"} [] OTHER -> {"A", "B", "C"}
-MainSigners == CASE Family = "approvals" -> {"p1", "kU"} [] Family = "chain" -> {"p1", "p3"} [] Family = "global" -> {"p1", "p3", "kU"} [] Family = "recovery" -> {"p1", "p3"} [] OTHER -> {"p1", "p2", "p3", "kU", "none"}
+PolIds == CASE Family \in {"window", "tworec"} -> {"A", "B"} [] Family = "approvals" -> {"R"} [] Family = "nopolicy" -> {"A"} [] Family = "chain" -> {"A", "B"} [] Family = "global" -> {"A", "G", "H", "T"} [] Family = "recovery" -> {"A", "B"} [] OTHER -> {"A", "B", "C"}
+MainSigners == CASE Family \in {"window", "tworec"} -> {"p1", "p3"} [] Family = "approvals" -> {"p1", "kU"} [] Family = "chain" -> {"p1", "p3"} [] Family = "global" -> {"p1", "p3", "kU"} [] Family = "recovery" -> {"p1", "p3"} [] OTHER -> {"p1", "p2", "p3", "kU", "none"}
 
 PrevOf(l, r) == LET S == {j \in 1..Len(l) : IsFor(l[j], r)} IN IF S = {} THEN 0 ELSE Max(S)
 RefEntries(l) ==
-    {[k |-> "ref", ref |-> "main", s |-> s, tree |-> t, par |-> pr] : s \in MainSigners, t \in {1, 2}, pr \in {0, PrevOf(l, "main")}}
+    {[k |-> "ref", ref |-> "main", s |-> s, tree |-> t, par |-> pr] : s \in MainSigners, t \in {1, 2},
+                                                                  pr \in (IF Family \in {"window", "tworec"} THEN {PrevOf(l, "main")} ELSE {0, PrevOf(l, "main")})}
     \cup {[k |-> "ref", ref |-> "feat", s |-> s, tree |-> 1, par |-> PrevOf(l, "feat")] : s \in {"p3", "kU"}}
 PropEntries(l) == IF Family = "core" THEN {[k |-> "prop", ref |-> "main", s |-> s, tree |-> 2, par |-> PrevOf(l, "main")] : s \in {"p1", "kU"}} ELSE {}
 AnnEntries(l) == LET R == {i \in 1..Len(l) : l[i].k = "ref"} IN
                  {[k |-> "ann", tg |-> {i}, s |-> "p1"] : i \in R}
-                 \cup (IF Family = "recovery" THEN {[k |-> "ann", tg |-> {i, j}, s |-> "p1"] : i, j \in R} ELSE {})
+                 \cup (IF Family \in {"recovery", "tworec"} THEN {[k |-> "ann", tg |-> {i, j}, s |-> "p1"] : i, j \in R} ELSE {})
 App(r, f, t, sr, sf, st, by) == [ref |-> r, from |-> f, tree |-> t, sref |-> sr, sfrom |-> sf, stree |-> st, by |-> by]
 Cr(r, f, t, sr, sf, st, app, signer, ap) == [ref |-> r, from |-> f, tree |-> t, sref |-> sr, sfrom |-> sf, stree |-> st, app |-> app,
                                              signer |-> signer, approvers |-> ap, dismissed |-> {}]
 AttEntries(l) ==
-    IF Family \in {"recovery", "chain"} THEN {}
+    IF Family \in {"recovery", "chain", "window", "tworec"} THEN {}
     ELSE IF Family = "approvals" THEN
          LET f == PrevOf(l, "main") IN
          \* authorizations and code-review approvals for the next change of main (tree 1 or 2), stored at the matching path or at
@@ -58,7 +59,20 @@ AttEntries(l) ==
 OtherEntries(l) == {[k |-> "pol", v |-> v, cv |-> c, sv |-> x] : v \in PolIds, c \in (IF Family = "chain" THEN BOOLEAN ELSE {TRUE}),
                                                                   x \in (IF Family = "chain" THEN BOOLEAN ELSE {TRUE})} \cup (IF Family = "core" THEN {[k |-> "stg"]} ELSE {})
 
-Alphabet(l) == RefEntries(l) \cup PropEntries(l) \cup AnnEntries(l) \cup AttEntries(l) \cup OtherEntries(l)
+\* shape-guided families: the kind of entry at each position is prescribed, which makes long histories around the
+\* recovery loop affordable ("window": policy change between a revoked violation and its fix; "tworec": two recoveries)
+Shape == CASE Family = "window" -> <<"ref", "ref", "annpol", "annpol", "ref", "ref">>
+           [] Family = "tworec" -> <<"ref", "ref", "ref", "ref", "ref", "ann", "ref">>
+           [] OTHER -> <<>>
+Shaped == Family \in {"window", "tworec"}
+ShapeAt(l) == Shape[Len(l)]          \* position Len(l)+1 of the log is position Len(l) of the shape (after the initial policy)
+FullAlphabet(l) == RefEntries(l) \cup PropEntries(l) \cup AnnEntries(l) \cup AttEntries(l) \cup OtherEntries(l)
+Alphabet(l) == IF ~Shaped THEN FullAlphabet(l)
+               ELSE IF Len(l) > Len(Shape) THEN {}
+               ELSE {e \in FullAlphabet(l) : CASE ShapeAt(l) = "ref" -> e.k = "ref" /\ e.ref = "main"
+                                                [] ShapeAt(l) = "ann" -> e.k = "ann"
+                                                [] ShapeAt(l) = "annpol" -> e.k \in {"ann", "pol"}
+                                                [] OTHER -> FALSE}
 
 Init == log \in (IF Family = "nopolicy" THEN {<<>>} ELSE {<<[k |-> "pol", v |-> (IF Family = "approvals" THEN "R" ELSE "A"), cv |-> TRUE, sv |-> TRUE]>>})
 Next == /\ Len(log) < MaxLen
@@ -84,6 +98,16 @@ C07Refines == \A r \in Refs : Between(OkOrFail(Impl(log, r, {"FixEntryNotVerifie
 
 Interesting == \E r \in Refs : Impl(log, r, AsBuilt) # Impl(log, r, {}) \/ Impl(log, r, {}) \in {"notskipped", "notfound"}
                                 \/ (\E i \in 1..Len(log) : IsFor(log[i], r) /\ Skipped(log, i) /\ Impl(log, r, {}) = "ok")
+\* a policy (or attestations) entry lies between a revoked violation and its fix, and something follows the fix:
+\* the re-queueing branch of the recovery loop (always emitted)
+WindowCase == \E r \in Refs : \E i \in 1..Len(log) :
+                 /\ IsFor(log[i], r) /\ log[i].k = "ref" /\ Skipped(log, i) /\ ~Authorized(log, i, TRUE) /\ FixOf(log, i) # 0
+                 /\ \E p \in (i + 1)..(FixOf(log, i) - 1) : log[p].k \in {"pol", "att"}
+                 /\ \E q \in (FixOf(log, i) + 1)..Len(log) : IsFor(log[q], r)
+\* two separate recoveries in one history
+TwoRecoveries == \E r \in Refs : \E i, j \in 1..Len(log) :
+                    /\ i < j /\ IsFor(log[i], r) /\ IsFor(log[j], r) /\ log[i].k = "ref" /\ log[j].k = "ref"
+                    /\ Skipped(log, i) /\ Skipped(log, j) /\ FixOf(log, i) # 0 /\ FixOf(log, i) < j /\ FixOf(log, j) # 0
 Weight == LET RECURSIVE W(_, _)
               W(l, n) == IF l = <<>> THEN 0 ELSE n * (Len(Head(l).k) + (IF Head(l).k \in {"ref", "prop"} THEN Head(l).tree * 5 + Head(l).par * 3 + Len(Head(l).s) ELSE 1)) + W(Tail(l), n + 1)
           IN W(log, 1)
@@ -97,7 +121,7 @@ PolJson == [v \in PolIds \cup {Strip[x] : x \in PolIds} |-> [rules |-> [r \in Re
 Emit == IF Len(log) <= 1 /\ (log = <<>> \/ log[1].k = "pol")
         THEN PrintT(ToJson([t |-> "POL", pol |-> PolJson, strip |-> [v \in PolIds |-> Strip[v]]]))
         ELSE IF Len(log) >= 2 /\ (\E r \in Refs : HasEntries(log, r))
-           /\ ((Interesting /\ Weight % 7 = EmitRes % 7) \/ Weight % EmitMod = EmitRes)
+           /\ ((Interesting /\ Weight % 7 = EmitRes % 7) \/ Weight % EmitMod = EmitRes \/ WindowCase \/ TwoRecoveries)
         THEN PrintT(ToJson([t |-> "SCN", fam |-> Family, log |-> [i \in DOMAIN log |-> Norm(log[i])]]))
         ELSE TRUE
 =============================================================================
